@@ -69,8 +69,10 @@ def plan(pid, tier):
         if tier == "quick":
             return [R("strip", "strip", k[:1], n=2, maxret=2),
                     R("strip1", "strip", k[1:], n=1, maxret=1)]
-        return [R("strip", "strip", KINDS, n=3, maxret=2),
-                R("strip3", "strip", k[:2], n=3, maxret=3)]
+        return [R("strip2", "strip", KINDS, n=2, maxret=2),
+                R("strip3", "strip", k[:2], n=3, maxret=2),
+                R("strip4", "strip", k[2:3], n=4, maxret=1),
+                R("stripr3", "strip", k[3:4], n=2, maxret=3)]
     raise vf.MachineryError("engine optionlang does not serve " + pid)
 
 
@@ -155,7 +157,7 @@ RULES_REQUIRED = {
     "C20": {"int-type", "int-range", "float-type", "bool-type", "string-type", "bytes-type", "enum-name", "enum-number",
             "enum-number-undeclared", "enum-type", "message-type", "scalar-got-message", "already-set", "ml-duplicate",
             "ml-list-for-singular", "ml-unknown-field", "unknown-field", "path-not-message", "path-repeated", "target",
-            "syntax:list-as-option-value", "syntax:ml-missing-colon"},
+            "syntax:list-as-option-value", "syntax:ml-missing-colon", "any-host", "any-unknown-type", "any-ref-outside-any"},
     "C21": {"already-set", "bool-type", "enum-name", "unknown-field", "string-type", "int-type"},
     "C22": set(),
 }
